@@ -133,6 +133,12 @@ def run_case(case):
 
     th = cards.theory(**case["theory"])
     leg = case["legacy"]
+    # every spelling of the optional entries the upgrade reads: QED order 0/1/2 or absent
+    qed = int(case["id"].split("-")[-1]) % 4 if case["id"].split("-")[-1].isdigit() else 0
+    if qed == 3:
+        th.pop("QED", None)
+    else:
+        th["QED"] = qed
     if leg in ("no-ptodis", "minimal"):
         th.pop("PTODIS")
     if leg == "ptodis-none":
